@@ -83,7 +83,8 @@ def observe (var : Variant) (s : St) (r : Ret) : String :=
     | some (c, rad, k, p) => s!"{c},{rad},{k},{p}"
     | none => "-"
   s!"ret={showRet r} st={showState s.state} tx={if shouldTransmit s then 1 else 0} cid={showOpt (clusterId s)} " ++
-  s!"info={info} op={showOpOut (opContainer var s)} nv={s.vrus.length} nc={s.clusters.length} err={if s.err then 1 else 0}"
+  s!"info={info} op={showOpOut (opContainer var s)} nv={s.vrus.length} nc={s.clusters.length} err={if s.err then 1 else 0} " ++
+  s!"mem={showOpt s.joined},{showOpt s.leader},{match s.last with | some t => toString (s.now - t) | none => "-"}"
 
 def age (now cap : Nat) (t : Option Nat) : String :=
   match t with | some t => toString (min cap (now - t)) | none => "-"
